@@ -520,6 +520,11 @@ func (i *Interpreter) executeSwitch(stmt SwitchStatement, env *Environment) (int
 
 // valuesEqual compares two values for equality
 func (i *Interpreter) valuesEqual(a, b interface{}) bool {
+	// Arrays and objects match a case by the same structural equality as ==
+	switch a.(type) {
+	case []interface{}, map[string]interface{}:
+		return valuesDeepEqual(a, b)
+	}
 	// Handle nil values
 	if a == nil && b == nil {
 		return true
